@@ -115,7 +115,7 @@ def main():
     solid = urwid.SolidFill("x").render((80, 24))
     more_c = lambda s: not s.endswith(b"c")  # noqa: E731
 
-    def warm(fg=True, name=True, isk=True):
+    def warm(fg=True, name=True, isk=True, toggle=False):
         for want, fn in ((fg, utils.get_fg_bg_colors), (name, utils.get_terminal_name_version),
                          (isk, TextImage._is_on_kitty)):
             fn._invalidate_cache()
@@ -128,6 +128,9 @@ def main():
                 utils.get_terminal_name_version._invalidate_cache()
         if fg:
             utils.get_fg_bg_colors()
+        if toggle:  # public API only: this is how the facts get cold again while a screen is running
+            term_image.disable_queries()
+            term_image.enable_queries()
         utils._cell_size_cache[:] = [0] * 4
         screen._ti_screen_canv = None
 
@@ -150,6 +153,11 @@ def main():
         # the same fact cold on both sides: outside the law (recorded as an observation)
         "get_terminal_name_version[cold]": (dict(name=False), utils.get_terminal_name_version, "observation"),
         "UrwidImageScreen.draw_screen[image canvas, name cold]": (dict(name=False), draw, "observation"),
+        # the same, reached through the public API only
+        "UrwidImage(KittyImage(img))[after disable_queries(); enable_queries()]":
+            (dict(toggle=True), lambda: UrwidImage(KittyImage(img)), "observation"),
+        "UrwidImageScreen.draw_screen[ITerm2Image canvas, after disable_queries(); enable_queries()]":
+            (dict(toggle=True), draw, "observation"),
     }
 
     result: dict = {"locks": {str(k): v for k, v in names.items()}, "tty": tty_id, "cell": cell_id}
